@@ -250,8 +250,14 @@ func (g *c06gen) num(d int) *c06xn {
 		return &c06xn{k: "neg", kids: []*c06xn{o}}
 	case k < 15:
 		g.tag("call")
-		if g.rng.Intn(2) == 0 {
+		switch g.rng.Intn(3) {
+		case 0:
 			return &c06xn{k: "call", s: "abs", kids: []*c06xn{g.num(d - 1)}}
+		case 1:
+			// a function with a fixed number (two) of arguments: as an operand of arithmetic it is what an item such as
+			// `if_null(a, 0) + b` starts with
+			g.tag("call-fixed-arity-2")
+			return &c06xn{k: "call", s: "if_null", kids: []*c06xn{g.num(0), g.num(0)}}
 		}
 		return &c06xn{k: "call", s: "coalesce", kids: []*c06xn{g.num(d - 1), g.num(d - 1)}}
 	case k < 18:
